@@ -1,6 +1,7 @@
 package main
 
 import (
+	_ "embed"
 	"fmt"
 	"go/token"
 	"go/types"
@@ -52,6 +53,39 @@ func toleratedErr(pkgPath string, msg string) bool {
 	return false
 }
 
+//go:embed stubs/pam_transaction.go.txt
+var pamStub []byte
+
+// cgoStubModfile makes a temporary copy of /repo's go.mod with one extra line
+// replacing github.com/msteinert/pam (a cgo package whose C headers are absent
+// here) by a type-only Go stub, so that everything importing it —
+// lib/controller/localdb and, transitively, lib/controller and
+// lib/controller/federation — type-checks and gets SSA. /repo's own files are
+// never replaced and /repo is not written to. Returns the -modfile build flag
+// and a cleanup function.
+func cgoStubModfile(repo string) ([]string, func()) {
+	gomod, err := os.ReadFile(repo + "/go.mod")
+	if err != nil {
+		return nil, func() {}
+	}
+	gosum, _ := os.ReadFile(repo + "/go.sum")
+	tmp, err := os.MkdirTemp("", "arvcheck-mod-")
+	if err != nil {
+		return nil, func() {}
+	}
+	cleanup := func() { os.RemoveAll(tmp) }
+	os.MkdirAll(tmp+"/pam", 0o755)
+	os.WriteFile(tmp+"/pam/go.mod", []byte("module github.com/msteinert/pam\n\ngo 1.13\n"), 0o644)
+	os.WriteFile(tmp+"/pam/pam.go", pamStub, 0o644)
+	mod := string(gomod) + "\nreplace github.com/msteinert/pam => " + tmp + "/pam\n"
+	if os.WriteFile(tmp+"/go.mod", []byte(mod), 0o644) != nil {
+		cleanup()
+		return nil, func() {}
+	}
+	os.WriteFile(tmp+"/go.sum", gosum, 0o644)
+	return []string{"-modfile=" + tmp + "/go.mod"}, cleanup
+}
+
 // Load type-checks the given package patterns (relative to the repo, e.g.
 // "./services/keepstore") with full syntax for the whole import closure and
 // builds SSA for everything.
@@ -59,14 +93,17 @@ func Load(repo string, patterns []string, tests bool, overlay map[string][]byte)
 	os.Unsetenv("GOWORK")
 	env := append(os.Environ(),
 		"GOFLAGS=-mod=mod", "GOPROXY=off", "GOSUMDB=off", "GOTOOLCHAIN=local", "GOWORK=off")
+	flags, cleanup := cgoStubModfile(repo)
+	defer cleanup()
 	fset := token.NewFileSet()
 	cfg := &packages.Config{
-		Mode:    packages.LoadAllSyntax,
-		Dir:     repo,
-		Fset:    fset,
-		Tests:   tests,
-		Env:     env,
-		Overlay: overlay,
+		Mode:       packages.LoadAllSyntax,
+		Dir:        repo,
+		Fset:       fset,
+		Tests:      tests,
+		Env:        env,
+		Overlay:    overlay,
+		BuildFlags: flags,
 	}
 	roots, err := packages.Load(cfg, patterns...)
 	if err != nil {
